@@ -252,7 +252,7 @@ def coq_eval_cases(name, header, checks, shard_size=400, timeout=1800):
     return sorted(bad)
 
 
-def coq_eval_value(name, header, term, timeout=600):
+def coq_eval_value(name, header, term, timeout=2400):
     """vm_compute one term and return coqc's printed text after '='."""
     d = os.path.join(CACHE, "cases", name)
     shutil.rmtree(d, ignore_errors=True)
